@@ -769,7 +769,16 @@ func c18RunScript(ros bool, sched []c18Sched, evs []string) (groups []*c18Group,
 		shutCtx, cancelShut = context.WithTimeout(shutCtx, 10*time.Minute)
 		defer cancelShut()
 	}
-	_ = w.Start(startCtx)
+	if len(evs)%3 == 0 {
+		// in every third scenario the context given to Start is a start-up context that is cancelled
+		// as soon as Start has returned: the worker goes on until Shutdown is called
+		var cancelStart context.CancelFunc
+		startCtx, cancelStart = context.WithCancel(startCtx)
+		_ = w.Start(startCtx)
+		cancelStart()
+	} else {
+		_ = w.Start(startCtx)
+	}
 	d.settleLoop()
 
 	for _, ev := range evs {
